@@ -70,8 +70,20 @@ def reset_src(ctx):
     return f", std.Reset(self.rst, active_low={ctx[0] == 'l'}, is_async={ctx[1] == 'a'})"
 
 
-def _ctx_key(ctx):
-    return f"/ctx={ctx}" if ctx else ""
+def _ctx_key(ctx, step=False):
+    return (f"/ctx={ctx}" if ctx else "") + ("/step" if step else "")
+
+
+def step_src(cfg):
+    """step condition of the context driven by an input"""
+    return ", step_cond=lambda: self.step" if cfg.get("step") else ""
+
+
+STEP_CTX_QUICK = (None, "hs", "ha")
+
+
+def _step_ctxs(thorough):
+    return (None,) + CTX_FLAVOURS if thorough else STEP_CTX_QUICK
 
 
 def dur_src(dur):
@@ -196,6 +208,8 @@ def build_wait(cfg):
     ctx = cfg.get("ctx")
     if ctx:
         src.append("    rst = Port.input(Bit)")
+    if cfg.get("step"):
+        src.append("    step = Port.input(Bit)")
     for i in range(nmarks):
         src.append(f"    m{i} = Port.output(Bit, default=False)")
     src.append("    def architecture(self):")
@@ -204,7 +218,7 @@ def build_wait(cfg):
         src.append(f"        w = std.Waiter({dur_src(tuple(wm)) if isinstance(wm, (list, tuple)) else wm})")
     else:
         src.append("        w = None")
-    src.append(f"        @std.sequential({clock_src(clk)}{reset_src(ctx)})")
+    src.append(f"        @std.sequential({clock_src(clk)}{reset_src(ctx)}{step_src(cfg)})")
     src.append("        async def proc():")
     src += body
     src.append("")
@@ -229,6 +243,8 @@ def build_wait(cfg):
         mprog = _wait_prog(shape, mspecs)
         model = M.WaitModel(mprog, nmarks, n_values=n_values, has_sel=has_sel, has_rst=bool(ctx),
                             rst_active_low=bool(ctx) and ctx[0] == "l")
+        if cfg.get("step"):
+            model = M.StepGated(model, pulse_outputs=model.outputs)
     return "\n".join(src), model, expect
 
 
@@ -244,7 +260,7 @@ def wait_configs(thorough):
         cfg.update(kw)
         cfg["key"] = "wait/" + api + (f"[max={_fmt(wmax)}]" if api == "waiter" else "") + "/" + shape + "/" + \
             ",".join(_fmt_spec(s) for s in specs) + (f"/clk={clk}" if clk else "") + \
-            (f"/nbits={kw['nbits']}" if "nbits" in kw else "") + _ctx_key(kw.get("ctx"))
+            (f"/nbits={kw['nbits']}" if "nbits" in kw else "") + _ctx_key(kw.get("ctx"), kw.get("step"))
         out.append(cfg)
 
     nmax = 12 if thorough else 6
@@ -292,6 +308,13 @@ def wait_configs(thorough):
                 add(api, "seq", [C(n)], wmax=7, ctx=ctx)
             add(api, "seq", [R()], wmax=7, ctx=ctx)
             add(api, "two", [C(2), R(True)], wmax=7, ctx=ctx)
+        # context with a step condition driven by an input x reset flavour
+        for ctx in _step_ctxs(thorough):
+            for n in ((1, 2, 3, 5) if thorough else (1, 2, 3)):
+                add(api, "seq", [C(n)], wmax=7, ctx=ctx, step=True)
+            add(api, "seq", [R()], wmax=7, ctx=ctx, step=True)
+            add(api, "two", [C(2), R(True)], wmax=7, ctx=ctx, step=True)
+            add(api, "seq", [("dur", ("ns", "12"), "4ns")], clk="4ns", wmax=7, ctx=ctx, step=True)
         # Duration arguments
         for clk, durs in DURATIONS.items():
             for d in durs:
@@ -346,6 +369,11 @@ def build_delay(cfg):
     src = [HEADER, "class T(Entity):", "    clk = Port.input(Bit)", f"    x = Port.input({ty})"]
     if gated:
         src.append("    en = Port.input(Bit)")
+    ctx = cfg.get("ctx")
+    if ctx:
+        src.append("    rst = Port.input(Bit)")
+    if cfg.get("step"):
+        src.append("    step = Port.input(Bit)")
     for k in taps:
         src.append(f"    o{k} = Port.output({ty})")
     if api != "delayed":
@@ -359,7 +387,7 @@ def build_delay(cfg):
             src.append(f"        std.concurrent_assign(self.o{k}, line[{k}])")
         src.append("        std.concurrent_assign(self.olen, len(line))")
     else:
-        src.append("        @std.sequential(std.Clock(self.clk))")
+        src.append(f"        @std.sequential(std.Clock(self.clk){reset_src(ctx)}{step_src(cfg)})")
         src.append("        def proc():")
         ind = "            "
         if gated:
@@ -377,6 +405,11 @@ def build_delay(cfg):
     model = M.DelayModel(n, taps, values, ival, mode="ctx" if api == "ctxline" else "seq", gated=gated)
     if api != "delayed":
         model = _WithConst(model, "olen", n + 1, registered=(api == "line"))
+    if cfg.get("step"):
+        model = M.StepGated(model)
+    if ctx:
+        # the reset of the context is present but held inactive (reset values of delay elements: C04's business)
+        model = M.HeldInput(model, "rst", 1 if ctx[0] == "l" else 0)
     return "\n".join(src), model, "either"
 
 
@@ -420,6 +453,18 @@ def delay_configs(thorough):
                         cfg = {"family": "delay", "type": tname, "delay": n, "api": api, "gated": gated, "initial": iname}
                         cfg["key"] = f"delay/{api}/{tname}/n={n}/initial={iname}/" + ("gated" if gated else "always")
                         out.append(cfg)
+    # step condition x reset flavour (reset held inactive)
+    for tname in (("Bit", "Unsigned2") if thorough else ("Bit",)):
+        for n in range(0, 4 if thorough else 3):
+            for api in ("delayed", "line"):
+                for gated in (False, True):
+                    for iname in ("none", "Full"):
+                        for ctx in _step_ctxs(thorough):
+                            cfg = {"family": "delay", "type": tname, "delay": n, "api": api, "gated": gated,
+                                   "initial": iname, "ctx": ctx, "step": True}
+                            cfg["key"] = f"delay/{api}/{tname}/n={n}/initial={iname}/" + \
+                                ("gated" if gated else "always") + _ctx_key(ctx, True)
+                            out.append(cfg)
     return out
 
 
@@ -435,9 +480,11 @@ def build_counter(cfg):
         src.append("    rst = Port.input(Bit)")
     if rt:
         src.append(f"    lim = Port.input(Unsigned[{bits}])")
+    if cfg.get("step"):
+        src.append("    step = Port.input(Bit)")
     src += ["    cnt = Port.output(Unsigned[4])", "    onext = Port.output(Unsigned[4])", "    def architecture(self):",
             "        def cb(v):", "            self.onext <<= v"]
-    src.append(f"        ctx = std.SequentialContext(std.Clock(self.clk){reset_src(ctx)})")
+    src.append(f"        ctx = std.SequentialContext(std.Clock(self.clk){reset_src(ctx)}{step_src(cfg)})")
     lim = "self.lim" if rt else str(cfg["limit"])
     src.append(f"        c = std.continuous_counter(ctx, {lim}, on_change=cb)")
     src.append("        std.concurrent_assign(self.cnt, c)")
@@ -445,6 +492,8 @@ def build_counter(cfg):
     model = M.CounterModel(None if rt else cfg["limit"], limit_values=tuple(range(1 << bits)) if rt else None,
                            has_rst=bool(ctx), maxval=(1 << bits) - 1 if rt else 15,
                            rst_active_low=bool(ctx) and ctx[0] == "l")
+    if cfg.get("step"):
+        model = M.StepGated(model)
     return "\n".join(src), model, "either"
 
 
@@ -456,6 +505,10 @@ def counter_configs(thorough):
             cfg = {"family": "counter", "limit": lim, "ctx": ctx}
             cfg["key"] = f"counter/limit={lim}" + _ctx_key(ctx)
             out.append(cfg)
+    for lim in ((1, 2, 3, "rt") if thorough else (2, "rt")):
+        for ctx in _step_ctxs(thorough):
+            out.append({"family": "counter", "limit": lim, "ctx": ctx, "step": True,
+                        "key": f"counter/limit={lim}" + _ctx_key(ctx, True)})
     if thorough:
         for ctx in (None,) + CTX_FLAVOURS:
             out.append({"family": "counter", "limit": "rt", "ctx": ctx, "bits": 3,
@@ -470,6 +523,8 @@ def _toggle_like_ports(cfg, extra_inputs):
     src = [HEADER, "class T(Entity):", "    clk = Port.input(Bit)"]
     if cfg.get("ctx"):
         extra_inputs = list(extra_inputs) + [("rst", "Bit")]
+    if cfg.get("step"):
+        extra_inputs = list(extra_inputs) + [("step", "Bit")]
     for name, ty in extra_inputs:
         src.append(f"    {name} = Port.input({ty})")
     src += ["    state = Port.output(Bit)", "    rising = Port.output(Bit)", "    falling = Port.output(Bit)",
@@ -520,7 +575,7 @@ def build_toggle(cfg):
     elif cfg["style"] == "call":
         ins.append(("en", "Bit"))
     src = _toggle_like_ports(cfg, ins)
-    src.append(f"        ctx = std.SequentialContext({clock_src(clk)}{reset_src(cfg.get('ctx'))})")
+    src.append(f"        ctx = std.SequentialContext({clock_src(clk)}{reset_src(cfg.get('ctx'))}{step_src(cfg)})")
     args = [f_src] + ([s_src] if s_src is not None else [])
     args += [f"default_state={bool(cfg['default_state'])}", f"first_state={bool(cfg['first_state'])}",
              f"require_enable={bool(cfg['require_enable'])}", "on_rising=on_r", "on_falling=on_f"]
@@ -547,6 +602,9 @@ def build_toggle(cfg):
         model = M.ToggleModel(f_val, s_val, first_values=vals if f_rt else None, second_values=vals if s_rt else None,
                               default_state=cfg["default_state"], first_state=cfg["first_state"],
                               require_enable=cfg["require_enable"], style=cfg["style"], **rk)
+    if cfg.get("step"):
+        assert cfg["style"] != "call"  # the enable()/disable() process of the wrapper has no step condition
+        model = M.StepGated(model, pulse_outputs=("cb_r", "cb_f"))
     return "\n".join(src), model, expect
 
 
@@ -585,7 +643,7 @@ def build_divider(cfg):
     elif cfg["style"] == "call":
         ins.append(("en", "Bit"))
     src = _toggle_like_ports(cfg, ins)
-    src.append(f"        ctx = std.SequentialContext({clock_src(clk)}{reset_src(cfg.get('ctx'))})")
+    src.append(f"        ctx = std.SequentialContext({clock_src(clk)}{reset_src(cfg.get('ctx'))}{step_src(cfg)})")
     args = [d_src, f"default_state={bool(cfg['default_state'])}", f"tick_at_start={bool(cfg['tick_at_start'])}",
             f"require_enable={bool(cfg['require_enable'])}", "on_rising=on_r", "on_falling=on_f"]
     src.append(f"        t = std.ClockDivider(ctx, {', '.join(args)})")
@@ -601,6 +659,9 @@ def build_divider(cfg):
                            require_enable=cfg["require_enable"], style=cfg["style"], ctx_rst=bool(cfg.get("ctx")),
                            rst_active_low=bool(cfg.get("ctx")) and cfg["ctx"][0] == "l",
                            async_rst=bool(cfg.get("ctx")) and cfg["ctx"][1] == "a")
+    if cfg.get("step"):
+        assert cfg["style"] != "call"
+        model = M.StepGated(model, pulse_outputs=("cb_r", "cb_f"))
     return "\n".join(src), model, expect
 
 
@@ -620,7 +681,7 @@ def toggle_configs(thorough):
         cfg.update(kw)
         cfg["key"] = f"toggle/first={_fmt_d(first)}/second={_fmt_d(second)}/" + \
             _opts_key(cfg, ("default_state", "first_state", "require_enable")) + f"/{style}" + \
-            (f"/clk={clk}" if clk else "") + (f"/bits={kw['bits']}" if "bits" in kw else "") + _ctx_key(kw.get("ctx"))
+            (f"/clk={clk}" if clk else "") + (f"/bits={kw['bits']}" if "bits" in kw else "") + _ctx_key(kw.get("ctx"), kw.get("step"))
         out.append(cfg)
 
     dsfs = [(ds, fs) for ds in (0, 1) for fs in (0, 1)]
@@ -643,6 +704,15 @@ def toggle_configs(thorough):
                     add("rt", 2, ds, fs, re, st, ctx=ctx)
                 if thorough:
                     add("rt", "rt", ds, fs, re, st, ctx=ctx)
+    # step condition x reset flavour
+    for ctx in _step_ctxs(thorough):
+        for st in ("none", "sig"):
+            for ds, fs in dsfs:
+                add(2, 1, ds, fs, 0, st, ctx=ctx, step=True)
+                if thorough:
+                    add(1, None, ds, fs, 0, st, ctx=ctx, step=True)
+            add("rt", 2, 0, 0, 0, st, ctx=ctx, step=True)
+        add(["dur", "ns", "8"], None, 0, 0, 0, "sig", clk="4ns", ctx=ctx, step=True)
     # constant durations: 50% duty (second omitted) and explicit pairs, incl. the documented 1/0 and 0/1 corners
     if thorough:
         pairs = [(a, None) for a in range(1, pmax + 1)] + \
@@ -702,7 +772,7 @@ def divider_configs(thorough):
         cfg.update(kw)
         cfg["key"] = f"divider/duration={_fmt_d(duration)}/" + \
             _opts_key(cfg, ("default_state", "tick_at_start", "require_enable")) + f"/{style}" + \
-            (f"/clk={clk}" if clk else "") + (f"/bits={kw['bits']}" if "bits" in kw else "") + _ctx_key(kw.get("ctx"))
+            (f"/clk={clk}" if clk else "") + (f"/bits={kw['bits']}" if "bits" in kw else "") + _ctx_key(kw.get("ctx"), kw.get("step"))
         out.append(cfg)
 
     dstas = [(ds, tas) for ds in (0, 1) for tas in (0, 1)]
@@ -715,6 +785,14 @@ def divider_configs(thorough):
             for ds, tas in dstas:
                 for d in ((2, 3, 5, "rt") if thorough else (3, "rt")):
                     add(d, ds, tas, re, st, ctx=ctx)
+    for ctx in _step_ctxs(thorough):
+        for st in ("none", "sig"):
+            for ds, tas in dstas:
+                add(3, ds, tas, 0, st, ctx=ctx, step=True)
+                if thorough:
+                    add(2, ds, tas, 0, st, ctx=ctx, step=True)
+            add("rt", 0, 0, 0, st, ctx=ctx, step=True)
+        add(["dur", "ns", "8"], 0, 0, 0, "sig", clk="4ns", ctx=ctx, step=True)
     for d in list(range(1, pmax + 1)) + ["rt"]:
         for ds, tas in dstas:
             for st, re in controls:
@@ -742,8 +820,10 @@ def build_debounce(cfg):
     ctx = cfg.get("ctx")
     if ctx:
         src.append("    rst = Port.input(Bit)")
+    if cfg.get("step"):
+        src.append("    step = Port.input(Bit)")
     src += ["    o = Port.output(Bit)", "    def architecture(self):"]
-    src.append(f"        ctx = std.SequentialContext({clock_src(clk)}{reset_src(ctx)})")
+    src.append(f"        ctx = std.SequentialContext({clock_src(clk)}{reset_src(ctx)}{step_src(cfg)})")
     ini = {None: "", 0: ", initial=False", 1: ", initial=True"}[cfg["initial"]]
     src.append(f"        std.concurrent_assign(self.o, std.debounce(ctx, self.inp, {p_src}{ini}))")
     src.append("")
@@ -754,18 +834,29 @@ def build_debounce(cfg):
         expect = "accept"
     model = M.DebounceModel(p_val, initial=cfg["initial"] or 0, has_rst=bool(ctx),
                             rst_active_low=bool(ctx) and ctx[0] == "l")
+    if cfg.get("step"):
+        model = M.StepGated(model)
     return "\n".join(src), model, expect
 
 
 def debounce_configs(thorough):
     out = []
 
-    def add(period, initial, ctx, clk=None):
+    def add(period, initial, ctx, clk=None, step=False):
         cfg = {"family": "debounce", "period": period, "initial": initial, "ctx": ctx}
         if clk:
             cfg["clk"] = clk
-        cfg["key"] = f"debounce/period={_fmt_d(period)}/initial={initial}" + (f"/clk={clk}" if clk else "") + _ctx_key(ctx)
+        if step:
+            cfg["step"] = True
+        cfg["key"] = f"debounce/period={_fmt_d(period)}/initial={initial}" + (f"/clk={clk}" if clk else "") + \
+            _ctx_key(ctx, step)
         out.append(cfg)
+
+    for ctx in _step_ctxs(thorough):
+        for p in ((1, 2, 3, 4, 6) if thorough else (1, 2, 3)):
+            for initial in (0, 1):
+                add(p, initial, ctx, step=True)
+        add(["dur", "ns", "12"], 0, ctx, clk="4ns", step=True)
 
     for p in range(1, 13 if thorough else 6):
         for initial in (None, 0, 1):
